@@ -177,7 +177,7 @@ def check(seed, tier):
     core.mc(rep, "mc/MC_LogThread.tla", "MC_LogThread_2x3.cfg", workers=4, coverage=True, label="MC_LogThread_2x3", timeout=3000)
     if not quick:
         core.mc(rep, "mc/MC_LogThread.tla", "MC_LogThread_3x2.cfg", workers=4, coverage=False, label="MC_LogThread_3x2", timeout=3000)
-    core.mc(rep, "mc/MC_LogThread.tla", "MC_LogThread_live.cfg" if quick else "MC_LogThread_live2x3.cfg", workers=4,
+    core.mc(rep, "mc/MC_LogThreadLive.tla", "MC_LogThreadLive_21.cfg" if quick else "MC_LogThreadLive_2x3.cfg", workers=4,
             label="MC_LogThread_liveness", timeout=3000)
 
     # (T) spec -> impl: schedules enumerated by TLC, executed by one driver thread on the real code
